@@ -43,11 +43,31 @@ impl C12 {
             },
             funds: vec![offer.clone()],
         };
+        let bal_of = |c: &SimCore, who: &str, d: &str| -> u128 { c.w.app.wrap().query_balance(who, d).map(|x| x.amount.u128()).unwrap_or(0) };
+        let fc = c.w.pm_config().fee_collector_addr.to_string();
+        let (b0, f0) = (bal_of(c, sender, ask), bal_of(c, &fc, ask));
         let o = c.exec_op(&op, None);
+        let (b1, f1) = (bal_of(c, sender, ask), bal_of(c, &fc, ask));
         c.w.restore(&snap);
         if !o.ok() {
             c.stats.bump("probe.c12.exec_rejected_after_quote");
             return Ok(());
+        }
+        // what the quote promises is what arrives: the trader's balance of the asked asset grows by
+        // the quoted return, the fee collector's by the quoted protocol fee (not merely the events)
+        if sender != fc && offer.denom != ask {
+            if b1.saturating_sub(b0) != q.return_amount.u128() {
+                return Err(viol(
+                    "C12.quote_vs_swap",
+                    format!("offer {offer} on {pool} for {ask}: quoted return {} but the trader's balance grew by {}", q.return_amount, b1.saturating_sub(b0)),
+                ));
+            }
+            if f1.saturating_sub(f0) != q.protocol_fee_amount.u128() {
+                return Err(viol(
+                    "C12.quote_vs_swap",
+                    format!("offer {offer} on {pool} for {ask}: quoted protocol fee {} but the fee collector received {}", q.protocol_fee_amount, f1.saturating_sub(f0)),
+                ));
+            }
         }
         let g = |k: &str| -> u128 { o.attr(k).and_then(|v| v.parse().ok()).unwrap_or(u128::MAX) };
         let got = (g("return_amount"), g("swap_fee_amount"), g("protocol_fee_amount"), g("burn_fee_amount"), g("extra_fees_amount"));
@@ -164,6 +184,18 @@ impl C12 {
         let o = c.exec_op(&op, None);
         c.w.restore(&snap);
         if !o.ok() {
+            let t = o.err_text();
+            let last: String = t.rsplit(": ").next().unwrap_or("").chars().filter(|ch| ch.is_ascii_alphabetic() || *ch == ' ').take(48).collect();
+            c.stats.bump(&format!("probe.c12.route_exec_rejected.{}", last.trim().replace(' ', "_")));
+            // a route whose every hop is offered what the previous hop returns IS consecutive: quoted
+            // by the query, it must not be refused as non-consecutive by the execution
+            let chained = ops.windows(2).all(|w| w[0].get_target_asset_info() == *w[1].get_input_asset_info()) && ops[0].get_input_asset_info() == &offer.denom;
+            if chained && t.contains("consecutive swap operation") {
+                return Err(viol(
+                    "C12.quote_not_executable",
+                    format!("connected route of {n} hops offering {offer}: SimulateSwapOperations = {} but execution refuses it as non-consecutive", q.return_amount),
+                ));
+            }
             return Ok(());
         }
         let got: u128 = o.attr("return_amount").and_then(|v| v.parse().ok()).unwrap_or(u128::MAX);
